@@ -395,6 +395,17 @@ pub fn generate(w: &mut dyn Write, seed: u64, thorough: bool) {
                     }
                 }
             }
+            // 4c. chains of identity keys (iPSK0:iPSK1:...:uPSK): header i is keyed by iPSK_i and names the NEXT key; only the client
+            //     builds such chains (the server here handles one level), so the bytes are compared with the model of the specification
+            if users.is_none() && (kname == "22a128" || kname == "22a256") {
+                for levels in [2usize, 3, 4] {
+                    let iks: Vec<Vec<u8>> = (0..levels).map(|_| rng.bytes(n)).collect();
+                    let iks_s = iks.iter().map(|k| hex(k)).collect::<Vec<_>>().join(",");
+                    let eops = format!("E{};E{}", hex(&rng.bytes(40)), hex(&rng.bytes(5)));
+                    let cargs: Vec<String> = vec!["sstcp".into(), kname.into(), hex(&rng.bytes(n)), iks_s, "none".into(), "client".into(), hex(&rng.bytes(n)), "D:6578616d706c652e636f6d:443".into(), now.to_string(), eops];
+                    crate::emit_case(w, &cargs, exec);
+                }
+            }
             // 5. crafted 2022 heads: type byte, timestamps around the boundary, echo, malformed plaintext
             if is22 {
                 let cr = Craft { cipher, key: &key, n };
